@@ -64,10 +64,10 @@ Proof.
   - exact st_add_rejected_untouched.
   - exact st_Rem_only_loses.
   - exact st_Rem_lost_in_closure.
-  - intros s now Hne. split; [|split].
-    + intros id. apply st_get_noexp. exact Hne.
-    + intros p. apply st_search_noexp. exact Hne.
-    + intros ev. apply st_find_rules_noexp. exact Hne.
+  - intros s now Hne Hp. split; [|split].
+    + intros id. apply st_get_noexp; assumption.
+    + intros p. apply st_search_noexp; assumption.
+    + intros ev. apply st_find_rules_noexp; assumption.
 Qed.
 
 (** * B. Expiry *)
@@ -113,12 +113,7 @@ Theorem removal_never_errs_without_failure : removal_never_errs_without_failure_
 Proof. exact st_rem_ok_nofail. Qed.
 
 Theorem purged_once_seen : purged_once_seen_statement.
-Proof.
-  intros s id now fact El Ex. destruct (st_get_expired s id now fact El Ex) as [H1 H2].
-  split; [exact H1|]. intros [Hf|(had & Hr)].
-  - destruct (st_rem_ok_nofail s id now Hf) as (had & Hr). eapply H2; exact Hr.
-  - eapply H2; exact Hr.
-Qed.
+Proof. exact st_get_expired. Qed.
 
 Theorem search_never_returns_expired : search_never_returns_expired_statement.
 Proof. exact st_search_live. Qed.
@@ -138,7 +133,8 @@ Definition hook_reject_leaves_residue_counterexample := DurableReach.hook_reject
 Definition failed_add_modifies_memory_counterexample := DurableReach.failed_add_modifies_memory_counterexample.
 Definition failed_clear_empties_memory_counterexample := DurableReach.failed_clear_empties_memory_counterexample.
 Definition purge_errors_swallowed_example := DurableFail.purge_errors_swallowed_example.
-Definition purge_errors_reported_linear_example := DurableFail.purge_errors_reported_linear_example.
+Definition purge_errors_dropped_linear_example := DurableFail.purge_errors_dropped_linear_example.
+Definition purged_once_seen_alone_counterexample := DurableFail.purged_once_seen_alone_counterexample.
 Definition load_linear_keeps_expired_example := DurableReload.load_linear_keeps_expired_example.
 Definition load_indexed_drops_expired_example := DurableReload.load_indexed_drops_expired_example.
 Definition load_expired_record_in_facts_counterexample := DurableReload.load_expired_record_in_facts_counterexample.
@@ -171,7 +167,8 @@ Print Assumptions hook_reject_leaves_residue_counterexample.
 Print Assumptions failed_add_modifies_memory_counterexample.
 Print Assumptions failed_clear_empties_memory_counterexample.
 Print Assumptions purge_errors_swallowed_example.
-Print Assumptions purge_errors_reported_linear_example.
+Print Assumptions purge_errors_dropped_linear_example.
+Print Assumptions purged_once_seen_alone_counterexample.
 Print Assumptions load_linear_keeps_expired_example.
 Print Assumptions load_indexed_drops_expired_example.
 Print Assumptions load_expired_record_in_facts_counterexample.
